@@ -242,6 +242,14 @@ def state_snapshot():
                         fns["%s.%s.%s" % (mname, k, ck)] = digest([snap(cv.__defaults__), snap(cv.__kwdefaults__)])
                     elif not ck.startswith("__") and not callable(cv) and not isinstance(cv, (property, staticmethod, classmethod)):
                         globs["%s.%s.%s" % (mname, k, ck)] = digest(snap(cv))
+            elif callable(v) and hasattr(v, "cache_info") and getattr(v, "__module__", "") == mname:
+                # a memoised helper (functools.lru_cache / cache): its fill level is module state like any other global
+                try:
+                    ci = v.cache_info()
+                    globs["%s.%s.cache" % (mname, k)] = digest([ci.misses, ci.currsize])
+                except Exception:
+                    pass
+                continue
             elif isinstance(v, (types.ModuleType, type)) or callable(v):
                 continue
             else:
